@@ -18,8 +18,8 @@ import (
 )
 
 type c10Param struct {
-	T                                     *TDesc
-	Null, Unknown, Dynamic, Marked        bool
+	T                              *TDesc
+	Null, Unknown, Dynamic, Marked bool
 }
 
 func (p c10Param) String() string {
